@@ -369,3 +369,38 @@ Definition g_cache_evict_expired (fuel : nat) (clock_now : Z) (self_expiry_heap 
     (fun '(self_expiry_heap, self_sink, self_cover) =>
       (RDone (self_expiry_heap, self_cover, self_sink)))
     (self_expiry_heap, self_sink, self_cover).
+
+(* calgebra/mutable/memory.py: MemoryTimeline._fetch_static *)
+Definition g_mem_fetch_static (self_static_intervals : list ivl) (start : option Z) (end_ : option Z) (reverse : bool) : list ivl :=
+  let out := @nil ivl in
+  if (negb (nonempty self_static_intervals)) then
+    out
+  else
+    let end_idx := (Z.of_nat (length self_static_intervals)) in
+    let end_idx :=
+      match end_ with
+      | Some end_ =>
+        let end_idx := (bisect_right (fun interval_ => (fstart interval_)) self_static_intervals end_) in
+        end_idx
+      | None =>
+        end_idx
+      end in
+    let matching := (@nil ivl) in
+    run_for
+      (fun matching i =>
+        let out := @nil ivl in
+        let interval_ := (py_index (mkI None None Plain) self_static_intervals i) in
+        if ((negb (is_none start)) && ((fend interval_) <=? (ozd start))) then
+          (out, matching, Cont)
+        else
+          let matching := (matching ++ [interval_]) in
+          (out, matching, Cont))
+      (fun matching =>
+        let out := @nil ivl in
+        if reverse then
+          let out := out ++ (rev matching) in
+          out
+        else
+          let out := out ++ matching in
+          out)
+      matching (zrange end_idx).
